@@ -694,6 +694,50 @@ func c08(c *Ctx) {
 				}
 			}
 			r.Check(nW >= 1, "C08.S5", del.Name(), "tail re-pointing found", c.P.Pos(del.Node().Pos()), itoa(nW), "Delete no longer re-points lastseen when the newest batch is deleted: GetNext blocks forever behind the deleted batch")
+			// S5b: the only stored batch Delete rewrites is the new tail: every Put sits under the same equality
+			for _, v := range g.Nodes() {
+				for _, call := range astx.Calls(v.Node, false) {
+					if !leveldbCall(info, call, "Put") {
+						continue
+					}
+					okEq := false
+					for _, fct := range g.FactsAt(v.ID) {
+						be, ok := ast.Unparen(fct.Expr).(*ast.BinaryExpr)
+						if !ok || fct.Tag != nil {
+							continue
+						}
+						mt := func(e ast.Expr) bool {
+							found := false
+							ast.Inspect(e, func(m ast.Node) bool {
+								if s2, ok := m.(*ast.SelectorExpr); ok && astx.FieldSel(info, s2) == lastseenF {
+									found = true
+								}
+								return true
+							})
+							return found
+						}
+						if (mt(be.X) || mt(be.Y)) && ((be.Op == token.EQL && fct.Val) || (be.Op == token.NEQ && !fct.Val)) {
+							okEq = true
+						}
+					}
+					r.Check(okEq, "C08.S5", del.Name(), "Delete rewrites a stored batch only when the newest batch itself is deleted", c.P.Pos(call.Pos()), "Put dominated by <deleted id> == <newest id>",
+						"Delete rewrites a stored batch (its link to the successor) on a path where the deleted id is not the newest batch: links are maintained by Add alone, and a Delete of an id that does not exist then unlinks an existing batch — readers skip it or block behind it")
+				}
+			}
+		}
+		// S5c: batches leave the store through Delete (and the wipe in reset) only: any other function that deletes keys would
+		// have to maintain the tail and the links as well
+		for _, fi := range c.P.FuncsIn("outputstream") {
+			if fi.Body() == nil || fi.Name() == "outputstream.(*OutputStream).Delete" {
+				continue
+			}
+			info := fi.Info()
+			for _, call := range astx.Calls(fi.Body(), true) {
+				if leveldbCall(info, call, "Delete") {
+					r.Fail("C08.S5", fi.Name(), "batches are deleted by OutputStream.Delete only", c.P.Pos(call.Pos()),
+						"a second function deletes batches from the store: only Delete re-points the in-memory tail when the newest batch goes — after a deletion that includes the newest batch, the next Add links the new batch behind the deleted one and writes the deleted batch back, so readers stay blocked although a successor exists and Get returns deleted output")
+				}
+			}
 		}
 	}
 
